@@ -629,7 +629,7 @@ impl<'de, R: Read<'de>> Deserializer<R> {
         };
 
         if f.is_infinite() {
-            Err(self.error(ErrorCode::NumberOutOfRange))
+            Err(self.peek_error(ErrorCode::NumberOutOfRange))
         } else {
             Ok(if positive { f } else { -f })
         }
@@ -649,7 +649,7 @@ impl<'de, R: Read<'de>> Deserializer<R> {
                     if exponent >= 0 {
                         f *= pow;
                         if f.is_infinite() {
-                            return Err(self.error(ErrorCode::NumberOutOfRange));
+                            return Err(self.peek_error(ErrorCode::NumberOutOfRange));
                         }
                     } else {
                         f /= pow;
@@ -661,7 +661,7 @@ impl<'de, R: Read<'de>> Deserializer<R> {
                         break;
                     }
                     if exponent >= 0 {
-                        return Err(self.error(ErrorCode::NumberOutOfRange));
+                        return Err(self.peek_error(ErrorCode::NumberOutOfRange));
                     }
                     f /= 1e308;
                     exponent += 308;
@@ -890,7 +890,7 @@ impl<'de, R: Read<'de>> Deserializer<R> {
         };
 
         if f.is_infinite() {
-            Err(self.error(ErrorCode::NumberOutOfRange))
+            Err(self.peek_error(ErrorCode::NumberOutOfRange))
         } else {
             Ok(if positive { f } else { -f })
         }
